@@ -113,3 +113,11 @@ Example C18_nonvacuous :
    reconcile nat deq nat Nat.compare a b base true = [(2, DeleteA)] /\
    reconcile nat deq nat Nat.compare a b base false = [(1, ConvergeIdentical); (2, PropagateAtoB)]).
 Proof. repeat split; vm_compute; reflexivity. Qed.
+
+(** The model the theorems above are about is the translation of src/bin/copia/reconcile.rs (Fingerprint::same, reconcile_path) as it is now: the function
+    generated from the source by tools/gen_logic.py (Gen/ReconcileGen.v) equals, on every input, Model/Reconcile.v reconcile_path
+    (statement: Proofs/TieReconcile.v, [reconcile_model_is_translation]). *)
+Require Copia.Proofs.TieReconcile.
+Theorem C18_model_is_translation_of_source : TieReconcile.reconcile_model_is_translation.
+Proof. exact TieReconcile.reconcile_model_is_translation_holds. Qed.
+Print Assumptions C18_model_is_translation_of_source.
